@@ -151,16 +151,25 @@ impl<K: AnimationKey> AnimationChainBuilder<K> {
 
 pub(super) fn chain_animations<K: AnimationKey, T: Component>(
     mut events: EventReader<AnimationStateChanged>,
-    mut selector_query: Query<(&mut AnimationSelector<K, T>, &AnimationChain<K>)>,
+    mut selector_query: Query<(
+        &mut AnimationSelector<K, T>,
+        &AnimationChain<K>,
+        &Animator<T>,
+    )>,
 ) {
     for ev in events.iter() {
         let AnimationStateChanged { entity, state } = ev;
         if state != &AnimationState::Ended {
             continue;
         }
-        let Ok((mut selector, chain)) = selector_query.get_mut(*entity) else {
+        let Ok((mut selector, chain, animator)) = selector_query.get_mut(*entity) else {
             continue;
         };
+        // The event does not say which component's animator ended. Only react if it was the one
+        // governed by this selector, not some other animator on the same entity.
+        if animator.state != AnimationState::Ended {
+            continue;
+        }
         if let Some(next_key) = chain.next_keys.get(&selector.timeline_key) {
             selector.timeline_key = next_key.clone();
         }
